@@ -8,6 +8,7 @@ import importlib
 import json
 import multiprocessing as mp
 import os
+import re
 import sys
 import time
 import traceback
@@ -271,6 +272,28 @@ def finding_matches(mod, finding, vj) -> bool:
 
 
 def main(argv=None):
+    """Everything a run writes outside /verif lives in one directory per run (shards and forked children make
+    their own sub-directories in it); it is removed when the run ends, and so are the directories of runs whose
+    process is gone (killed by a timeout)."""
+    import shutil
+
+    from .world import scratch_base
+
+    base = scratch_base()
+    for name in os.listdir(base):
+        m = re.fullmatch(r"asimap-verif-run-(\d+)", name)
+        if m and not os.path.exists(f"/proc/{m.group(1)}"):
+            shutil.rmtree(os.path.join(base, name), ignore_errors=True)
+    run_dir = os.path.join(base, f"asimap-verif-run-{os.getpid()}")
+    os.makedirs(run_dir, exist_ok=True)
+    os.environ["VERIF_SCRATCH_RUN"] = run_dir
+    try:
+        return _main(argv)
+    finally:
+        shutil.rmtree(run_dir, ignore_errors=True)
+
+
+def _main(argv=None):
     ap = argparse.ArgumentParser()
     ap.add_argument("prop")
     ap.add_argument("--tier", default=os.environ.get("VERIF_TIER", "quick"))
